@@ -76,7 +76,7 @@ void harness(void)
 	V_COVER("width 9", in_len == 9 && r >= 0);
 #elif defined(UNIT_BUF2ID)
 	{
-		uint8_t in_bytes[WMAX]; IN(int, in_has_ptr); uint64_t out = 0; uint64_t *ip = in_has_ptr ? &out : 0;
+		uint8_t in_bytes[WMAX]; IN(int, in_has_ptr); uint64_t out = 0; uint64_t *ip = in_has_ptr ? &out : 0; V_FILL(in_bytes);
 		size_t i;
 		IN_BUF(buf, in_len ? in_len : 1);
 		for (i = 0; i < in_len; i++) buf[i] = in_bytes[i];
